@@ -56,6 +56,10 @@ structure VHist where
   init : V := default
   /-- earlier (net, state) observations for the quote-recovery check -/
   seen : List State := []
+  /-- ghost reserve snapshots: the snapshot history as the MODEL writes it along the observed operations (started from the first
+      observation; advanced by the model's own snapshot discipline on every operation the implementation accepted).  The per-block band
+      is judged against it as well: a defect in the implementation's snapshot book-keeping moves the band the stored snapshots define -/
+  ghost : List Snapshot := []
 
 def dirOf (n : Nat) : Direction := if n == 0 then .addToAmm else .removeFromAmm
 
@@ -107,7 +111,7 @@ def handleVCfg (acc : Acc) (h : VHist) (kv : KV) (line : String) : Acc × VHist 
     let acc := if Spec.C18.snapshotsOk impl.st env then acc
       else acc.report "SPECFAIL" "C18" "snapshot-discipline-init" line
     (acc, { D := D, fper := kv.nat "period", alive := true, last := impl, lastEnv := env, init := impl,
-            seen := [impl.st] })
+            seen := [impl.st], ghost := impl.st.snaps })
 
 /-- C01 observation checks after any accepted or rejected operation -/
 def specC01 (acc : Acc) (h : VHist) (post : V) (line : String) : Acc :=
@@ -135,7 +139,27 @@ def handleVOp (acc : Acc) (h : VHist) (kv : KV) (line : String) : Acc × VHist :
   -- a rejected call / a query changes nothing
   let acc := if (isExec && ok) || sameV pre post then acc
     else reportMany acc "SPECFAIL" ["C08", "C10"] s!"vamm-state-changed-without-accepted-call:{diffV pre post}" line
-  let next : VHist := { h with last := post, lastEnv := env, seen := if h.seen.length < 64 then post.st :: h.seen else h.seen }
+  -- the model's step from the observed pre-state with the GHOST snapshots in place of the stored ones
+  let preG : V := { pre with st := { pre.st with snaps := h.ghost } }
+  let ghost' : List Snapshot :=
+    if !ok then h.ghost else
+    match op with
+    | "swapin" => (match Vamm.swapInput preG env snd (dirOf (kv.nat "dir")) (kv.nat "amt") (kv.nat "lim") (kv.bool "cgo") with
+        | .ok (mv, _) => mv.st.snaps | .error _ => post.st.snaps)
+    | "swapout" => (match Vamm.swapOutput preG env snd (dirOf (kv.nat "dir")) (kv.nat "amt") (kv.nat "lim") with
+        | .ok (mv, _) => mv.st.snaps | .error _ => post.st.snaps)
+    | _ => if post.st.snaps == pre.st.snaps then h.ghost else post.st.snaps
+  let ghostBand (acc : Acc) (cgo : Bool) : Acc :=
+    if pre.cfg.fluct == 0 || !(op == "swapin" || op == "swapout") then acc else
+    match Spec.C15.band D pre.cfg.fluct h.ghost env.height with
+    | some bd =>
+      let acc := if ok && !(Spec.C15.inside D bd pre.st.quote pre.st.base)
+        then acc.report "SPECFAIL" "C15" "swap-accepted-outside-band(band-from-the-history's-snapshots)" line else acc
+      if ok && op == "swapin" && !cgo && !(Spec.C15.inside D bd post.st.quote post.st.base)
+        then acc.report "SPECFAIL" "C15" "no-go-over-swap-left-band(band-from-the-history's-snapshots)" line else acc
+    | none => acc
+  let acc := ghostBand acc (kv.bool "cgo")
+  let next : VHist := { h with last := post, lastEnv := env, seen := if h.seen.length < 64 then post.st :: h.seen else h.seen, ghost := ghost' }
   let acc :=
     match op with
     | "swapin" =>
@@ -252,14 +276,14 @@ def handleVOp (acc : Acc) (h : VHist) (kv : KV) (line : String) : Acc × VHist :
         then acc.report "SPECFAIL" "C18" "twap-zero-interval-not-spot" line else acc
       let m := Vamm.queryTwapPrice pre env iv
       match m with
-      | .ok mr => if ok && mr == r then acc else acc.report "DISAGREE" "C18" "twap-value" line
+      | .ok mr => if ok && mr == r then acc else reportMany acc "DISAGREE" ["C18", "C06", "C05"] "twap-value" line
       | .error e => let acc := acc.cover s!"vamm.{op}:{errTagOf e}"; if ok then acc.report "DISAGREE" "C18" "twap-accept" line else acc
     | "q_iotwap" =>
       let dir := dirOf (kv.nat "dir")
       let m := if kv.bool "qin" then Vamm.queryInputTwap pre env dir (kv.nat "amt")
                else Vamm.queryOutputTwap pre env dir (kv.nat "amt")
       match m with
-      | .ok mr => if ok && mr == kv.nat "r" then acc else reportMany acc "DISAGREE" ["C18", "C06"] "io-twap-value" line
+      | .ok mr => if ok && mr == kv.nat "r" then acc else reportMany acc "DISAGREE" ["C18", "C06", "C05"] "io-twap-value" line
       | .error e => let acc := acc.cover s!"vamm.{op}:{errTagOf e}"; if ok then reportMany acc "DISAGREE" ["C18", "C06"] "io-twap-accept" line else acc
     | "q_overfluct" =>
       let dir := dirOf (kv.nat "dir")
